@@ -84,6 +84,12 @@ def seed_rule(ctx, r):
                   "any error (the serial walker still visits them)" % why, fn=f, loc=c.loc, construct="new_for_each_thread")
 
 
+def named_field(e, name):
+    """The walker's shared flag / counter by its field name, whichever struct of the walker holds it (Worker itself, or a
+    small struct of the shared state that Worker holds)."""
+    return any(x.k == "field" and x[3] == name and str(x[2]).startswith(W + "::") for x in walk(e))
+
+
 def run(ctx):
     facts = ctx.facts
     f = facts.fn(WK + "::get_work")
@@ -208,7 +214,7 @@ def run(ctx):
         # (e.g. on "all idle") throws away work that was stolen but not yet re-activated
         qcallers = sorted({c.fn.path for c in facts.callers_of(WK + "::quit_now")})
         stores = sorted({g_.path for g_ in facts.fns_in(W + "::") for c in g_.calls()
-                         if c.path.endswith("Atomic::store") and mentions_field(ExprBuilder(g_).operand(c.args[0]), WK, "quit_now")})
+                         if c.path.endswith("Atomic::store") and named_field(ExprBuilder(g_).operand(c.args[0]), "quit_now")})
         if qcallers == [WK + "::run"] and stores == [WK + "::quit_now"]:
             r.ok("quit-owner", "quit_now() is called only by Worker::run (on WalkState::Quit); the flag is stored nowhere else", fn=g)
         else:
@@ -240,7 +246,7 @@ def run(ctx):
             h = facts.fn(WK + "::" + name)
             cs = [c for c in h.calls() if c.path.endswith("Atomic::" + order)]
             ebh = ExprBuilder(h)
-            if cs and mentions_field(ebh.operand(cs[0].args[0]), WK, "quit_now") and \
+            if cs and named_field(ebh.operand(cs[0].args[0]), "quit_now") and \
                     (order == "load" or (op_const(cs[0].args[1]) or {}).get("val") == 1):
                 r.ok(name, "%s on Worker.quit_now" % order, fn=h)
             else:
@@ -275,7 +281,7 @@ def run(ctx):
                 if "::Atomic::" in c.path and c.path.split("::")[-1] in ("fetch_sub", "fetch_add", "store", "swap", "compare_exchange", "fetch_update"):
                     ebg = ebg or ExprBuilder(g)
                     tgt = ebg.operand(c.args[0])
-                    if mentions_field(tgt, WK, "active_workers"):
+                    if named_field(tgt, "active_workers"):
                         writers.add(g.path)
                 if "::Atomic::" in c.path:
                     ebg = ebg or ExprBuilder(g)
